@@ -375,11 +375,10 @@ func ZZ_C09_k4_batch_locate_stale() {
 		known = zzAnd(known, w.locIsKnown(l))
 	}
 	zzAssert(known, "K4.stale-batch-locations-are-known-regions")
-	ordered := true
-	for i := 1; i < len(locs); i++ {
-		ordered = zzAnd(ordered, bytes.Compare(locs[i-1].StartKey, locs[i].StartKey) < 0)
-	}
-	zzAssert(ordered, "K4.stale-batch-locations-in-key-order")
+	// No ordering assertion here: with a stale cache the result may legitimately
+	// hold a stale cached region next to the fresh regions that overlap it (e.g.
+	// fresh ["",a),[a,m) followed by the stale cached [a,inf)); the store rejects
+	// the stale epoch. Order is asserted for the consistent cache (ZZ_C09_k4_batch_locate).
 	p := zzBytes("p", klen)
 	covered := zzImplies(zzInRanges(ranges, p), zzCovered(locs, p))
 	// same split of labels as in ZZ_C09_k4_batch_locate (regression guard of the
